@@ -119,6 +119,26 @@ func c11Fresh() *ClusterInfo {
 	return NewEmptyClusterInfo("tenant", nil, nil, flowcontrol.LocalFlowControls, nil)
 }
 
+// c11ExpectGates: the gates the last version prescribes: defaults (all off) overridden by its annotation - written down
+// from the specification, independent of any gateway instance (a fresh instance in the same process would share a
+// polluted global default gate).
+func c11ExpectGates(live *ClusterInfo, last *proxyv1alpha1.UpstreamCluster) {
+	want := map[featuregate.Feature]bool{}
+	switch last.Annotations[features.FeatureGateAnnotationKey] {
+	case "DenyAllRequests=true":
+		want[features.DenyAllRequests] = true
+	case "Tracing=true", "DenyAllRequests=false,Tracing=true":
+		want[features.Tracing] = true
+	case "GlobalRateLimiter=true":
+		want[features.GlobalRateLimiter] = true
+	}
+	for _, g := range c11Gates {
+		vassert(live.FeatureEnabled(g) == want[g], "C11/feature-gates-differ-from-latest-annotation")
+		// and nothing leaked into the process-wide defaults other clusters start from
+		vassert(!features.DefaultFeatureGate.Enabled(g), "C11/feature-gate-leaked-into-the-shared-defaults")
+	}
+}
+
 // c11Same compares the effective configuration of two cluster infos through the accessors the data plane uses.
 func c11Same(a, b *ClusterInfo, probeVerb string) {
 	for _, g := range c11Gates {
@@ -163,6 +183,7 @@ func c11Converges(vary int) {
 		probe = nondetStringN("probe.verb", 1)
 	}
 	c11Same(live, fresh, probe)
+	c11ExpectGates(live, last)
 	vreach("end")
 }
 
